@@ -54,11 +54,13 @@ fn main() {
     let paths = vec![
         format!("{}:{}:{}:{}", l, m, s, sys), format!("{}:{}:{}:{}", s, l, m, sys), format!("{}:{}:{}:{}", s, m, sys, l), format!("{}:{}", sys, l), l.clone(),
         format!("{}", sys), format!(":{}::{}:", s, sys), (0..40).map(|i| format!("{}/{}", s, i)).collect::<Vec<_>>().join(":") + ":" + sys,
+        String::new(),      // an empty PATH counts as none: no search at all
     ];
     let mut long_cwd = String::from("/tmp");
     while long_cwd.len() < 500 { long_cwd.push_str("/."); }
     let cwds: Vec<Option<String>> = vec![None, Some("/tmp".into()), Some(long_cwd)];
-    let cmds = ["true", "a-command-name-that-does-not-exist-anywhere-0123456789-0123456789"];
+    // names without a slash (searched on PATH: found / not found) and with one (used as given: exists / does not)
+    let cmds = ["true", "a-command-name-that-does-not-exist-anywhere-0123456789-0123456789", "/bin/true", "./no/such/program-with-a-slash-0123456789"];
     let (mut checked, mut bad) = (0, 0);
     for path in &paths {
         std::env::set_var("PATH", path);
